@@ -4,6 +4,7 @@
 -- a toy hasher implemented on both sides, and digest tables recorded from the six real hashers).
 import Winter.Model.Coin
 import WinterProofs.Lemmas.C19
+import WinterProofs.Lemmas.C19Gen
 
 namespace C19
 open Model.Coin C19L
@@ -377,5 +378,35 @@ theorem grind_finds_what_verifier_checks (c : Coin D) (gf fuel n : Nat)
 /-- ★ the verifier accepts a nonce iff its measure reaches the grinding factor -/
 theorem powOk_iff (c : Coin D) (gf nonce : Nat) : powOk H c gf nonce = true ↔ gf ≤ checkLeadingZeros H c nonce := by
   simp [powOk]
+
+-- =================================================================== tie T: the regenerated integer logic
+-- `Gen.Coin.*` is what translate/gen.py makes, on every run, of the integer expressions of `draw_integers`
+-- (two assertions, mask, masking of the first eight bytes) and `check_leading_zeros` (`trailing_zeros`) in
+-- crypto/src/random/default.rs.  The model functions the theorems above are about are proved to be the two
+-- methods over that regenerated logic (`drawIntegersG`, `checkLeadingZerosG`: Winter/Model/CoinGen.lean).
+section tieT
+variable {D : Type} (H : HashOps D)
+
+/-- ★ the regenerated pieces equal the model's, for ALL arguments -/
+theorem gen_coin_pieces (n d x m : Nat) :
+    Gen.Coin.draw_integers_assert0 n d = isPow2 d ∧
+    Gen.Coin.draw_integers_assert1 n d = decide (n < d) ∧
+    Gen.Coin.draw_integers_mask d = d - 1 ∧ (Gen.Coin.draw_integers_mask_ok d = true ↔ 1 ≤ d) ∧
+    Gen.Coin.draw_integers_value x m = x &&& m ∧
+    Gen.Coin.check_leading_zeros_count x = tz64 x :=
+  C19G.gen_pieces n d x m
+
+/-- ★ `draw_integers` / `check_leading_zeros` of the model ARE the methods over the regenerated integer logic;
+    the mask subtraction cannot underflow once the first assertion has passed -/
+theorem coin_model_eq_gen (n d nonce v : Nat) (c : Coin D) :
+    drawIntegers H n d nonce c = drawIntegersG H n d nonce c ∧
+    checkLeadingZeros H c v = checkLeadingZerosG H c v ∧
+    (Gen.Coin.draw_integers_assert0 n d = true → Gen.Coin.draw_integers_mask_ok d = true) :=
+  ⟨C19G.drawIntegers_eq_gen H n d nonce c, C19G.checkLeadingZeros_eq_gen H c v, C19G.gen_mask_ok_of_assert n d⟩
+
+end tieT
+
+example : Gen.Coin.draw_integers_mask 1024 = 1023 ∧ Gen.Coin.draw_integers_value 123456789 1023 = 277 ∧
+    Gen.Coin.check_leading_zeros_count 4096 = 12 ∧ Gen.Coin.check_leading_zeros_count 0 = 64 := by decide
 
 end C19
